@@ -42,6 +42,9 @@ def posNat (l : List Nat) : Option Nat :=
   | some n => if n < 2 ^ 64 then some n else none
   | none => none
 
+/-- an ALT allele as modelled: bases, or `*` (the overlapping-deletion allele) -/
+def isAltAllele (l : List Nat) : Bool := l = [42] || (!l.isEmpty && l.all (fun b => b = 65 ∨ b = 67 ∨ b = 71 ∨ b = 84 ∨ b = 78))
+
 def isBases (l : List Nat) : Bool := !l.isEmpty && l.all (fun b => b = 65 ∨ b = 67 ∨ b = 71 ∨ b = 84 ∨ b = 78)
 
 def hasInfix (p : List Nat) : List Nat → Bool
@@ -180,7 +183,7 @@ def hasDupEntry (entries : List (List Nat)) : Bool := !entries.Nodup
     except that a repeated entry in ID, FILTER or among the INFO keys, an empty INFO column, fewer sample columns than the header
     declares, and a sample with more values than FORMAT keys are recognised as what the parser refuses. INFO values are not
     interpreted (the generators write well-typed ones); sample columns beyond the declared ones are ignored, as the parser does. -/
-def parseVcfRecord (nSamples : Nat) (line : List Nat) : Option Rec :=
+def parseVcfRecord (nSamples : Nat) (prevPos : Nat) (line : List Nat) : Option Rec :=
   match splitBytes 9 line with
   | chrom :: pos :: id :: ref :: alt :: qual :: filter :: info :: format :: samples =>
     match asciiString chrom with
@@ -190,14 +193,14 @@ def parseVcfRecord (nSamples : Nat) (line : List Nat) : Option Rec :=
       -- contig names of letters, digits, `_` `.` `-` only (symbols `<x>`, `*`, blanks, a leading `#`: not modelled)
       if !c.toList.all (fun ch => ch.isAlphanum || ch == '_' || ch == '.' || ch == '-') then none else
       match posNat pos with
-      | none => some (.corrupt c 0)
+      | none => some (.corrupt c prevPos)     -- the record buffer is filled in place: CHROM is the new one, POS still the previous record's
       | some p =>
         if samples.isEmpty then none else
         if p < 1 then none else
         if id ≠ [46] ∧ hasDupEntry (splitBytes 59 id) then some (.corrupt c p) else
         if filter ≠ [46] ∧ hasDupEntry (splitBytes 59 filter) then some (.corrupt c p) else
         if info.isEmpty ∨ (info ≠ [46] ∧ hasDupEntry ((splitBytes 59 info).map (fun f => f.takeWhile (· ≠ 61)))) then some (.corrupt c p) else
-        let plain := id = [46] && isBases ref && (alt = [46] || (splitBytes 44 alt).all isBases) && qual = [46] &&
+        let plain := id = [46] && isBases ref && (alt = [46] || (splitBytes 44 alt).all isAltAllele) && qual = [46] &&
           (filter = [46] || filter = strBytes "PASS")
         if !plain then none else
         let keys := splitBytes 58 format
@@ -217,26 +220,28 @@ def parseVcfRecord (nSamples : Nat) (line : List Nat) : Option Rec :=
     -- fewer than ten fields: a truncated line is rejected (a line without FORMAT / samples is not modelled)
     match asciiString chrom, bytesNat pos with
     | some c, some p => if (splitBytes 9 line).length < 8 then some (.corrupt c p) else none
-    | some c, none => some (.corrupt c 0)
+    | some c, none => some (.corrupt c prevPos)
     | none, _ => none
   | _ => none
 
-/-- Records up to and including the first corrupt one (reading stops there). -/
-def parseVcfRecords (nSamples : Nat) : List (List Nat) → Option (List Rec)
+/-- Records up to and including the first corrupt one (reading stops there). `prevPos` is the position the reader's record buffer holds
+    when the line is parsed: 1 for the first record (the buffer's default), afterwards the previous record's POS — it is what an error
+    about an unreadable POS column is reported with. -/
+def parseVcfRecords (nSamples : Nat) (prevPos : Nat) : List (List Nat) → Option (List Rec)
   | [] => some []
   | l :: ls =>
     if l.isEmpty then none else
-    match parseVcfRecord nSamples l with
+    match parseVcfRecord nSamples prevPos l with
     | none => none
     | some (.corrupt c p) => some [.corrupt c p]
-    | some r => (parseVcfRecords nSamples ls).map (r :: ·)
+    | some (.gts c p g) => (parseVcfRecords nSamples p ls).map (Rec.gts c p g :: ·)
 
 /-- Plain VCF text → call set. -/
 def vcfDecode (bytes : List Nat) : Option (List String × List Rec) :=
   if bytes.contains 13 then none else
   match parseVcfHeaderLines (splitLines bytes) with
   | none => none
-  | some (h, recLines) => (parseVcfRecords h.samples.length recLines).map (fun rs => (h.samples, rs))
+  | some (h, recLines) => (parseVcfRecords h.samples.length 1 recLines).map (fun rs => (h.samples, rs))
 
 /-! ## BCF -/
 
@@ -303,7 +308,7 @@ def bcfTakeString (l : List Nat) : Option (List Nat × List Nat) :=
 /-- `k` allele strings, each a string of bases. -/
 def bcfSkipAlleles : Nat → List Nat → Option (List Nat)
   | 0, l => some l
-  | k + 1, l => (bcfTakeString l).bind (fun p => if isBases p.1 then bcfSkipAlleles k p.2 else none)
+  | k + 1, l => (bcfTakeString l).bind (fun p => if isAltAllele p.1 then bcfSkipAlleles k p.2 else none)
 
 /-- `k` INFO entries: a typed integer key and one typed value each. -/
 def bcfSkipInfo : Nat → List Nat → Option (List Nat)
